@@ -109,3 +109,237 @@ pub fn cmd_dump(dir: &str, out: &str) -> String {
     let _ = fs::write(out, s);
     format!("dumped {}", files.len())
 }
+
+// ---------------------------------------------------------------------------------------------
+// C12: determinism probes
+
+fn sha(bytes: &[u8]) -> String {
+    // FNV-1a 64 (twice, different offsets): enough to compare outputs; no extra crates
+    let mut h1: u64 = 0xcbf29ce484222325;
+    let mut h2: u64 = 0x84222325cbf29ce4;
+    for &b in bytes {
+        h1 = (h1 ^ u64::from(b)).wrapping_mul(0x100000001b3);
+        h2 = (h2 ^ u64::from(b)).wrapping_mul(0x100000001b3).rotate_left(7);
+    }
+    format!("{h1:016x}{h2:016x}")
+}
+
+fn outcome_key(o: &Outcome) -> String {
+    match o {
+        Outcome::Ok(b) => format!("ok:{}:{}", b.len(), sha(b)),
+        other => describe(other),
+    }
+}
+
+/// `zv det <dir> <start> <seed>`: one line per probe `<tag> <outcome-key>`:
+/// registration orders (identity, reversed, seeded shuffles), a second thread, and call histories of
+/// length 3 on one `FilesToRead`
+pub fn cmd_det(dir: &str, start: &str, seed: u64) -> String {
+    let files = read_dir_files(Path::new(dir));
+    if files.is_empty() {
+        return "no-files\n".into();
+    }
+    let n = files.len();
+    let mut out = String::new();
+    let mut orders: Vec<(String, Vec<usize>)> = vec![("order-identity".into(), (0..n).collect()), ("order-reversed".into(), (0..n).rev().collect())];
+    let mut s = seed.wrapping_mul(6364136223846793005).wrapping_add(1442695040888963407);
+    for k in 0..3 {
+        let mut o: Vec<usize> = (0..n).collect();
+        for i in (1..n).rev() {
+            s = s.wrapping_mul(6364136223846793005).wrapping_add(1442695040888963407);
+            let j = (s >> 33) as usize % (i + 1);
+            o.swap(i, j);
+        }
+        orders.push((format!("order-shuffle{k}"), o));
+    }
+    for (tag, o) in &orders {
+        let ftr = build_files(&files, start, o);
+        out.push_str(&format!("{tag} {}\n", outcome_key(&generate(&ftr))));
+    }
+    // another thread (its own HashMap seeds)
+    {
+        let files2 = files.clone();
+        let start2 = start.to_string();
+        let r = std::thread::spawn(move || {
+            let o: Vec<usize> = (0..files2.len()).collect();
+            let ftr = build_files(&files2, &start2, &o);
+            outcome_key(&generate(&ftr))
+        })
+        .join()
+        .unwrap_or_else(|_| "panic thread".into());
+        out.push_str(&format!("thread {r}\n"));
+    }
+    // repeated calls on the same object
+    {
+        let o: Vec<usize> = (0..n).collect();
+        let ftr = build_files(&files, start, &o);
+        for k in 0..3 {
+            out.push_str(&format!("call{k} {}\n", outcome_key(&generate(&ftr))));
+        }
+    }
+    out
+}
+
+// ---------------------------------------------------------------------------------------------
+// C15: failing and short-writing sinks
+
+struct Sink {
+    calls: usize,
+    bytes: Vec<u8>,
+    fail_at: Option<usize>,
+    kind: u8,
+    /// for short writes: accept at most this many bytes per call (0 = everything); `pattern` varies it
+    max_accept: usize,
+    pattern: u64,
+    offsets: Vec<usize>,
+    interrupted_once: bool,
+}
+
+impl Sink {
+    fn new() -> Self {
+        Sink { calls: 0, bytes: vec![], fail_at: None, kind: 0, max_accept: 0, pattern: 0, offsets: vec![], interrupted_once: false }
+    }
+}
+
+impl Write for Sink {
+    fn write(&mut self, buf: &[u8]) -> std::io::Result<usize> {
+        let k = self.calls;
+        if Some(k) == self.fail_at {
+            match self.kind {
+                0 => {
+                    self.calls += 1;
+                    return Err(std::io::Error::other("injected"));
+                }
+                1 => {
+                    self.calls += 1;
+                    return Err(std::io::Error::from(std::io::ErrorKind::BrokenPipe));
+                }
+                2 => {
+                    self.calls += 1;
+                    return Err(std::io::Error::from(std::io::ErrorKind::PermissionDenied));
+                }
+                3 => {
+                    // Ok(0): write_all turns it into WriteZero
+                    self.calls += 1;
+                    return Ok(0);
+                }
+                _ => {
+                    // Interrupted once: write_all must retry and the output must be complete
+                    if !self.interrupted_once {
+                        self.interrupted_once = true;
+                        return Err(std::io::Error::from(std::io::ErrorKind::Interrupted));
+                    }
+                }
+            }
+        }
+        self.calls += 1;
+        self.offsets.push(self.bytes.len());
+        let mut n = buf.len();
+        if self.max_accept > 0 {
+            let lim = if self.pattern == 0 {
+                self.max_accept
+            } else {
+                self.pattern = self.pattern.wrapping_mul(6364136223846793005).wrapping_add(1442695040888963407);
+                1 + (self.pattern >> 33) as usize % self.max_accept
+            };
+            n = n.min(lim).max(usize::from(!buf.is_empty()));
+        }
+        self.bytes.extend_from_slice(&buf[..n]);
+        Ok(n)
+    }
+    fn flush(&mut self) -> std::io::Result<()> {
+        Ok(())
+    }
+}
+
+/// `zv sink <dir> <start> <max-points> <seed>`:
+///   N <calls> <bytes> <sha>
+///   OFFSETS <comma separated cumulative offsets at the start of every write call>   (only when small)
+///   BAD <k> <kind> <outcome>            for every injected failure that did not end as an I/O error
+///   TESTED <n>
+///   SHORT <pattern> <equal|differs|outcome>
+pub fn cmd_sink(dir: &str, start: &str, max_points: usize, seed: u64) -> String {
+    let files = read_dir_files(Path::new(dir));
+    if files.is_empty() {
+        return "no-files\n".into();
+    }
+    let order: Vec<usize> = (0..files.len()).collect();
+    let ftr = build_files(&files, start, &order);
+    let doc = match catch_unwind(AssertUnwindSafe(|| XmlReader::read_xml(&ftr))) {
+        Ok(Ok(d)) => d,
+        Ok(Err(e)) => return format!("read-err {}\n", class_of(&format!("{e:?}"))),
+        Err(_) => return "panic read\n".into(),
+    };
+    let mut out = String::new();
+    let mut reference = Sink::new();
+    match catch_unwind(AssertUnwindSafe(|| doc.write_xml(&mut reference))) {
+        Ok(Ok(())) => {}
+        Ok(Err(e)) => return format!("write-err {}\n", class_of(&format!("{e:?}"))),
+        Err(_) => return "panic write\n".into(),
+    }
+    let n = reference.calls;
+    out.push_str(&format!("N {n} {} {}\n", reference.bytes.len(), sha(&reference.bytes)));
+    if n <= 20000 {
+        out.push_str("OFFSETS ");
+        out.push_str(&reference.offsets.iter().map(ToString::to_string).collect::<Vec<_>>().join(","));
+        out.push('\n');
+    }
+    // failure points: all when few, else a seeded sample plus the first and last 50
+    let mut points: Vec<usize> = if n <= max_points {
+        (0..n).collect()
+    } else {
+        let mut v: Vec<usize> = (0..50.min(n)).chain(n.saturating_sub(50)..n).collect();
+        let mut s = seed | 1;
+        while v.len() < max_points {
+            s = s.wrapping_mul(6364136223846793005).wrapping_add(1442695040888963407);
+            v.push((s >> 33) as usize % n);
+        }
+        v.sort_unstable();
+        v.dedup();
+        v
+    };
+    points.dedup();
+    let mut tested = 0usize;
+    for &k in &points {
+        for kind in 0..5u8 {
+            // the rarer kinds are tried on every 7th point only
+            if kind >= 1 && k % 7 != 0 {
+                continue;
+            }
+            let mut s = Sink::new();
+            s.fail_at = Some(k);
+            s.kind = kind;
+            let r = catch_unwind(AssertUnwindSafe(|| doc.write_xml(&mut s)));
+            tested += 1;
+            let outcome = match r {
+                Ok(Ok(())) => "ok".to_string(),
+                Ok(Err(e)) => {
+                    let c = class_of(&format!("{e:?}"));
+                    if c == "Io" { "io-err".to_string() } else { format!("err-{c}") }
+                }
+                Err(_) => "panic".to_string(),
+            };
+            let expect = if kind == 4 { "ok" } else { "io-err" };
+            let complete = kind != 4 || s.bytes == reference.bytes;
+            if outcome != expect || !complete {
+                out.push_str(&format!("BAD {k} {kind} {outcome}{}\n", if complete { "" } else { " incomplete-output" }));
+            }
+        }
+    }
+    out.push_str(&format!("TESTED {tested}\n"));
+    for (name, max_accept, pattern) in [("one-byte", 1usize, 0u64), ("random-prefix-7", 7, seed | 1), ("random-prefix-64", 64, seed.wrapping_add(99) | 1), ("half-1000", 1000, 0)] {
+        let mut s = Sink::new();
+        s.max_accept = max_accept;
+        s.pattern = pattern;
+        let r = catch_unwind(AssertUnwindSafe(|| doc.write_xml(&mut s)));
+        let verdict = match r {
+            Ok(Ok(())) => {
+                if s.bytes == reference.bytes { "equal".to_string() } else { "differs".to_string() }
+            }
+            Ok(Err(e)) => format!("err-{}", class_of(&format!("{e:?}"))),
+            Err(_) => "panic".to_string(),
+        };
+        out.push_str(&format!("SHORT {name} {verdict}\n"));
+    }
+    out
+}
